@@ -110,7 +110,7 @@ def selftest(ctx, tf):
     ctx.notes.append("binding self-test: a balance raised by 777 is reported as NoCreation, lowered by 777 as NoUnauthorisedDebit")
 
 
-FAMILIES = ["base", "stake"]
+FAMILIES = ["base", "stake", "deleg", "alleg", "eth"]
 
 
 def run(ctx, prop, replay):
@@ -132,7 +132,7 @@ def run(ctx, prop, replay):
         return
     mc = model_check(ctx)
     quick = ctx.quick()
-    n, blocks = (80, 14) if quick else (1000, 20)
+    n, blocks = (50, 14) if quick else (600, 20)
     samples = []
     tot = dict(scenarios=0, blocks=0, txs=0, accepted=0, dead=0, events=0, nontrivial=0)
     kinds = {}
